@@ -179,7 +179,10 @@ def run_item(item, workdir, paths):
         write_files(item, src)
     if "file" in paths:
         L = lk(directories=[src])
-        res["file"] = _facts(L.get_template(main), ctx)
+        try:
+            res["file"] = _facts(L.get_template(main), ctx)
+        except BaseException as e:  # noqa
+            res["file"] = {"render": "EXC:%s at construction" % type(e).__name__}
         if "get_def" in paths:
             t2 = L.get_template(main)
             gd = {}
@@ -188,9 +191,13 @@ def run_item(item, workdir, paths):
             res["get_def_file"] = {"defs": gd}
     if "moddir" in paths:
         L = lk(directories=[src], module_directory=mods)
-        t = L.get_template(main)
-        res["moddir"] = _facts(t, ctx)
-        if "moduletemplate" in paths:
+        try:
+            t = L.get_template(main)
+            res["moddir"] = _facts(t, ctx)
+        except BaseException as e:  # noqa
+            t = None
+            res["moddir"] = {"render": "EXC:%s at construction" % type(e).__name__}
+        if "moduletemplate" in paths and t is not None:
             try:
                 mt = ModuleTemplate(t.module, lookup=L, template_filename=t.filename, module_filename=getattr(t.module, "__file__", None))
                 res["moduletemplate"] = {"render": _outcome(lambda: mt.render(**ctx)), "defs": sorted(mt.list_defs())}
@@ -199,8 +206,11 @@ def run_item(item, workdir, paths):
     if "moddir2" in paths:
         stamp = _mtimes(mods)
         L = lk(directories=[src], module_directory=mods)
-        t = L.get_template(main)
-        res["moddir2"] = _facts(t, ctx)
+        try:
+            t = L.get_template(main)
+            res["moddir2"] = _facts(t, ctx)
+        except BaseException as e:  # noqa
+            res["moddir2"] = {"render": "EXC:%s at construction" % type(e).__name__}
         res["moddir2"]["regenerated"] = _mtimes(mods) != stamp
     if "uri-spellings" in paths and not any(
         re.search(r"\.uri\b|\bU\(|\.filename\b|_template_uri|\bdescribe\(", str(text)) for text in item["files"].values()
